@@ -726,6 +726,24 @@ fn check_emit(
     if let Err(p) = catch_unwind(AssertUnwindSafe(|| e.emit_to_stderr_with_path(src, "x.wgsl"))) {
         emit_panics.push(("emit_to_stderr_with_path".into(), run::panic_message(p)));
     }
+    // paths are `impl AsRef<Path>`: a path that is not valid UTF-8 (legal on Unix), a relative one with `..`, an empty one
+    {
+        use std::os::unix::ffi::OsStrExt;
+        let odd = std::path::Path::new(std::ffi::OsStr::from_bytes(b"shaders/caf\xe9/\xff\xfe.wgsl"));
+        for (label, pth) in [("non-utf8", odd), ("dotdot", std::path::Path::new("../a/./b.wgsl")), ("empty", std::path::Path::new(""))] {
+            match catch_unwind(AssertUnwindSafe(|| e.emit_to_string_with_path(src, pth))) {
+                Ok(t) => {
+                    if t.is_empty() {
+                        problems.push(format!("emit_to_string_with_path ({label} path) is empty"));
+                    }
+                }
+                Err(p) => emit_panics.push((format!("emit_to_string_with_path[{label}-path]"), run::panic_message(p))),
+            }
+            if let Err(p) = catch_unwind(AssertUnwindSafe(|| e.emit_to_stderr_with_path(src, pth))) {
+                emit_panics.push((format!("emit_to_stderr_with_path[{label}-path]"), run::panic_message(p)));
+            }
+        }
+    }
 }
 
 fn first_word(s: &str) -> String {
